@@ -595,6 +595,11 @@ impl Engine for Limits {
                     "1 var zgv 2 var zgw zgv zgw",
                     "#( 1 2 3 ~)",
                     "[ 1 [ 2 [ 3 ] unbox ] unbox ] unbox",
+                    // late-bound words called while the source is still being built
+                    "late zgl : zgu zgl 1 + ; : zgl 5 ; #( zgu zgu zgu + + #)",
+                    "late zgl : zgu zgl zgl + ; : zgl 5 ; #( 0 4 0 do zgu + loop #)",
+                    "late zgl : zgu zgl ; #( 3 const zgl #) #( zgu zgu zgu zgu + + + #)",
+                    ": zgi immediate 1 2 3 + + ; zgi zgi zgi",
                 ];
                 const GROWTH_CONST: &[&str] = &[
                     "zgV4 unbox",
